@@ -324,7 +324,25 @@ Non-trivial: payload ≥ 12 bytes; distinct = distinct query lines."
                 let mut variants: Vec<(String, Signature)> = vec![("valid".into(), vs.clone())];
                 for bs in [0usize, 1, 1000, 1023, 131072, usize::MAX] { let mut x = vs.clone(); x.block_size = bs; variants.push((format!("bs={bs}"), x)); }
                 { let mut x = vs.clone(); x.file_size = u64::MAX; variants.push(("file_size=max".into(), x)); }
+                // per-BLOCK fields of a decoded signature are data, not positions: an index beyond the block list, duplicated or
+                // permuted indices, on blocks the source really contains (so the scan walks exactly those table entries)
+                let nb = vs.blocks.len();
+                for j in 0..nb {
+                    for val in [u32::MAX, nb as u32, (nb as u32).wrapping_add(7), 0] {
+                        let mut x = vs.clone(); x.blocks[j].index = val; variants.push((format!("block{j}.index={val}"), x));
+                    }
+                }
+                if nb >= 2 { let mut x = vs.clone(); x.blocks.swap(0, nb - 1); variants.push(("blocks-swapped".into(), x)); }
+                { let mut x = vs.clone(); x.blocks.truncate(1); variants.push(("blocks-truncated".into(), x)); }
                 std::fs::write(f("src"), &src).ok();
+                for (name, sv) in &variants {
+                    // the same hostile signature through the library's table + scan, in process
+                    let (svc, srcc) = (sv.clone(), src.clone());
+                    if sv.block_size >= 512 && sv.block_size <= 65536 {
+                        let r = guarded(move || { use copia::Sync; copia::CopiaSync::with_block_size(1024).delta(Cursor::new(&srcc), &svc).map(|d| d.ops.len()) });
+                        if r.is_err() { let l = w.case(&format!("libdelta-hostile-sig {name} {i}"), "PANIC", true); w.fail(l, "delta-panic-on-decoded-signature", &format!("CopiaSync::delta panicked on a decoded signature with {name}")); }
+                    }
+                }
                 for (name, sv) in &variants {
                     let bytes = bincode::serialize(sv).expect("ser");
                     std::fs::write(f("sig"), &bytes).ok();
